@@ -168,3 +168,33 @@ impl Default for Pen {
         }
     }
 }
+
+#[cfg(avt_verif)]
+impl Pen {
+    // verification hook: canonical dump of the private representation
+    pub(crate) fn verif_state(&self, out: &mut String) {
+        fn color(c: Option<Color>) -> i64 {
+            match c {
+                None => -1,
+                Some(Color::Indexed(i)) => i as i64,
+                Some(Color::RGB(c)) => {
+                    0x1000000 + ((c.r as i64) << 16) + ((c.g as i64) << 8) + (c.b as i64)
+                }
+            }
+        }
+
+        let intensity = match self.intensity {
+            Intensity::Normal => 0,
+            Intensity::Bold => 1,
+            Intensity::Faint => 2,
+        };
+
+        out.push_str(&format!(
+            "{} {} {} {} ",
+            color(self.foreground),
+            color(self.background),
+            intensity,
+            self.attrs
+        ));
+    }
+}
